@@ -4,6 +4,7 @@
    index is [keyhash line mod n] (model of preprocess/shard_main.cc main()). *)
 From PP Require Import Shard.ShardDefs Shard.ShardProofs Compress.CompressDefs Compress.CompressProofs.
 From PP Require Import Shard.ShardConcrete Shard.ShardConcreteProofs Fields.FieldsDefs.
+From PP Require Import Shard.ShardDedupe Fields.KeyInstances Tools.DedupeDefs Compress.ToyCodec.
 From Coq Require Import Permutation.
 Local Open Scope N_scope.
 
@@ -33,18 +34,59 @@ Print Assumptions C06_colocated_index_only.
 
 (* Deduplicating every shard gives, as a multiset, the lines of the deduplicated
    input.  [kf] is the dedupe key (same -f/-d), [dedupe] C01's specification
-   (first line of every key); hypothesis: lines with equal dedupe key have the
-   same shard index (the key hash is a function of the key; C01 excludes
-   collisions the same way). *)
+   (first line of every key; = C01's first_occ, next theorem); hypothesis: lines OF THE
+   INPUT with equal dedupe key have the same shard index (the key hash is a function of
+   the key, and no two different keys of this input collide).  The hypothesis is about the
+   input lines only, so a 64-bit hash can meet it. *)
 Theorem C06_dedupe_commutes :
   forall (K : Type) (kf : list Z -> K) (keq : K -> K -> bool),
     (forall a b, keq a b = true <-> a = b) ->
     forall (keyhash : list Z -> N) (n : N) (ls : list (list Z)),
       0 < n ->
-      (forall l1 l2, kf l1 = kf l2 -> index keyhash n l1 = index keyhash n l2) ->
-      Permutation (concat (map (dedupe K kf keq) (shard keyhash n ls))) (dedupe K kf keq ls).
-Proof. exact dedupe_commutes. Qed.
+      (forall l1 l2, In l1 ls -> In l2 ls -> kf l1 = kf l2 -> index keyhash n l1 = index keyhash n l2) ->
+      Permutation (concat (map (ShardProofs.dedupe K kf keq) (shard keyhash n ls))) (ShardProofs.dedupe K kf keq ls).
+Proof. exact dedupe_commutes_on. Qed.
 Print Assumptions C06_dedupe_commutes.
+
+(* that specification is C01's: for keys in N it is Tools.DedupeDefs.first_occ, the function
+   C01_dedupe_first_occurrences proves the dedupe tool model equal to *)
+Theorem C06_dedupe_spec_is_C01_first_occ :
+  forall (kf : list Z -> N) (ls : list (list Z)),
+    ShardProofs.dedupe N kf N.eqb ls = first_occ (list Z) kf ls.
+Proof. exact dedupe_is_first_occ. Qed.
+Print Assumptions C06_dedupe_spec_is_C01_first_occ.
+
+(* composed with the concrete keys of both tools (dedupe -f F -d D: dedupe_keyN, its own seed
+   and the whole-line shortcut; shard -f F -d D: field_keyhash = RangeFields + MurmurHash64A
+   with shard's seed): dedupe of every shard = dedupe of the input, as multisets of lines.
+   Only assumption: no two lines of THIS input with different selected fields have the same
+   64-bit dedupe key (no_collision). *)
+Theorem C06_dedupe_commutes_concrete :
+  forall (rs : list range) (d : Z) (n : N) (ls : list (list Z)),
+    0 < n -> canonical rs -> no_collision (dedupe_keyN rs d) rs d ls ->
+    Permutation (concat (map (first_occ (list Z) (dedupe_keyN rs d)) (shard (field_keyhash rs d) n ls)))
+                (first_occ (list Z) (dedupe_keyN rs d) ls).
+Proof. exact dedupe_commutes_concrete. Qed.
+Print Assumptions C06_dedupe_commutes_concrete.
+
+(* it applies: "b\tx", "a\ty", "b\tz", "a\ty" with -f 1, three shards.  The premises hold
+   (computed with the Murmur model), and both sides are computed *)
+Example C06_nonvacuous_dedupe_concrete :
+  let rs := [(0, 1)]%Z in let d := 9%Z in
+  let ls := [[98;9;120]; [97;9;121]; [98;9;122]; [97;9;121]]%Z in
+  canonical rs /\ no_collision (dedupe_keyN rs d) rs d ls /\
+  first_occ (list Z) (dedupe_keyN rs d) ls = [[98;9;120]; [97;9;121]]%Z /\
+  Permutation (concat (map (first_occ (list Z) (dedupe_keyN rs d)) (shard (field_keyhash rs d) 3 ls)))
+              [[98;9;120]; [97;9;121]]%Z.
+Proof.
+  cbv zeta. split; [vm_compute; repeat split; discriminate|]. split.
+  - intros l1 l2 H1 H2. simpl in H1, H2.
+    repeat (destruct H1 as [H1|H1]; [subst l1|]); try destruct H1;
+      repeat (destruct H2 as [H2|H2]; [subst l2|]); try destruct H2; vm_compute; intros E; try reflexivity; discriminate E.
+  - split; [vm_compute; reflexivity|].
+    match goal with |- Permutation ?x _ => let y := eval vm_compute in x in change x with y end.
+    auto using Permutation_refl, perm_swap.
+Qed.
 
 (* --prefix p --number n: the n names are pairwise different *)
 Theorem C06_names_distinct :
@@ -82,6 +124,43 @@ Theorem C06_every_file_valid :
         kstream member k file content /\ file <> [].
 Proof. exact shard_files_valid. Qed.
 Print Assumptions C06_every_file_valid.
+
+(* the codec premises can be met (toy codec of Compress/ToyCodec.v): a closed instance, and a
+   computed file -- shard 1 of 2 receives nothing and still is a complete (empty) gzip member *)
+Theorem C06_contract_satisfiable_every_file_valid :
+  forall (keyhash : list Z -> N) (n : N) (input : list Z) (k : kind) (i : nat),
+    k <> KXz ->
+    let content := nth i (shard_tool keyhash n input) [] in
+    exists f0 file,
+      (forall fuel, (f0 <= fuel)%nat ->
+         write_session unit tenc tenew tereset tecall fuel k tt (map OpWrite (blocks content)) = FileOk file) /\
+      kstream tmember k file content /\ file <> [].
+Proof.
+  intros keyhash n input k i Hk.
+  exact (C06_every_file_valid unit tenc tenew tereset tecall tmember TEInv tepend tmember_magic toy_enew_inv toy_ereset_inv
+           toy_run_contract toy_finish_contract keyhash n input k tt i Hk).
+Qed.
+Print Assumptions C06_contract_satisfiable_every_file_valid.
+
+Example C06_nonvacuous_every_file_valid :
+  let outs := shard_tool (fun _ => 0) 2 [97; 10; 98; 10]%Z in
+  outs = [[97; 10; 98; 10]; []]%Z /\
+  write_session unit tenc tenew tereset tecall 200 KGz tt (map OpWrite (blocks (nth 0 outs []))) =
+    FileOk (magic_of KGz ++ [1;97; 1;10; 1;98; 1;10] ++ [0])%Z /\
+  write_session unit tenc tenew tereset tecall 200 KGz tt (map OpWrite (blocks (nth 1 outs []))) =
+    FileOk (magic_of KGz ++ [0])%Z.
+Proof. vm_compute. repeat split. Qed.
+
+(* -c none: the file is the shard's lines and nothing else (WriteUncompressed writes the blocks
+   handed to it one after the other) *)
+Theorem C06_uncompressed_file_exact :
+  forall (keyhash : list Z -> N) (n : N) (input : list Z) (i : nat),
+    write_plain (map OpWrite (blocks (nth i (shard_tool keyhash n input) []))) = nth i (shard_tool keyhash n input) [].
+Proof.
+  intros keyhash n input i. unfold write_plain. rewrite flat_map_concat_map, map_map. simpl.
+  rewrite map_id. apply blocks_concat.
+Qed.
+Print Assumptions C06_uncompressed_file_exact.
 
 (* ---- the key hash instantiated with the models of C10 (RangeFields) and C14
    (MurmurHash64A, HashCallback chaining): Shard/ShardConcrete.v.  The file index is
@@ -148,8 +227,8 @@ Proof. vm_compute. reflexivity. Qed.
 Example C06_nonvacuous_dedupe :
   let kh := fun l : list Z => match l with [] => 0 | (b :: _)%list => Z.to_N b end in
   let kf := fun l : list Z => hd 0%Z l in
-  dedupe Z kf Z.eqb [[97]; [98; 1]; [99]; [97; 5]; [98; 2]]%Z = [[97]; [98; 1]; [99]]%Z /\
-  concat (map (dedupe Z kf Z.eqb) (shard kh 2 [[97]; [98; 1]; [99]; [97; 5]; [98; 2]]%Z)) = [[98; 1]; [97]; [99]]%Z.
+  ShardProofs.dedupe Z kf Z.eqb [[97]; [98; 1]; [99]; [97; 5]; [98; 2]]%Z = [[97]; [98; 1]; [99]]%Z /\
+  concat (map (ShardProofs.dedupe Z kf Z.eqb) (shard kh 2 [[97]; [98; 1]; [99]; [97; 5]; [98; 2]]%Z)) = [[98; 1]; [97]; [99]]%Z.
 Proof. vm_compute. split; reflexivity. Qed.
 
 Example C06_nonvacuous_names :
